@@ -6,7 +6,7 @@ CONSTANTS
   AtomicQueue = TRUE
   StaleTimeout = FALSE
   InitStates = {"Queued"}
-  B <- BCrash
+  B <- BSmall
   MaxHist = 0
 VIEW view
 INVARIANTS TypeOK AtMostOneProc OneRunner
